@@ -61,6 +61,11 @@ def obligations(tier):
                    [{"field": f, "bad": b} for f in (ALLF if not q else ["int16", "uint8_arr", "byte", "byte_arr", "float", "float_arr", "string", "char", "struct"]) for b in range(9)],
                    cond_timeout=120, flags=("ieee",), reach="h_wrongtype_reach", reach_shards=[{"field": "int16", "bad": 0}], encoded=ENC,
                    bounds="9 wrong Python values (float, str, None, bytes, list, tuple, complex, object, NaN) into every field kind; array position symbolic", symbolic="array index"),
+        Obligation("ctypes_arrays_held_to_the_field_range", H, "h_ctypes_seq",
+                   [{"field": f, "src": src, "pos": pos, "extreme": ex} for f in (ARRS if not q else ["int8_arr", "uint8_arr", "int32_arr", "uint16_arr"])
+                    for src in ("int8", "uint8", "int16", "uint16", "int32", "uint32", "int64", "uint64") for pos in ((1,) if q else (0, 1, 3)) for ex in ("max", "min")],
+                   cond_timeout=120, flags=("ieee",), reach="h_ctypes_seq_reach", reach_shards=[{"field": "int8_arr", "src": "int8", "pos": 1, "extreme": "max"}], encoded=ENC,
+                   bounds="ctypes arrays of every integer element type, holding that type's extreme value at one position, assigned (slice and whole-field) to integer array fields", symbolic="slice vs whole-field assignment"),
         Obligation("struct_types", H, "h_struct", [{"field": f, "cand": c} for f in ("struct", "struct_arr") for c in range(6)], cond_timeout=120, flags=("ieee",),
                    reach="h_struct_reach", encoded=ENC, bounds="struct and struct-array fields; right struct, two wrong struct classes, int, None, list", symbolic="array index"),
         Obligation("validation_on_after_disable_blocks", H, "h_disable", [{"depth": d} for d in (1, 2, 3)], cond_timeout=200, flags=("ieee",),
